@@ -227,7 +227,7 @@ func (exp *exporter) getID(entry *frundis.LoXinfo) string {
 	custom := ctx.Params["xhtml-custom-ids"]
 	var id string
 	if exp.AllInOneFile {
-		if custom != "0" && custom != "" && entry.ID != "" {
+		if custom != "0" && custom != "" && entry.ID != "" && idIsSafe(entry.ID) {
 			id = entry.ID
 		} else {
 			id = fmt.Sprintf("s%d", entry.Count)
@@ -344,12 +344,19 @@ func (exp *exporter) customFileNames() bool {
 	return ok && useID != "" && useID != "0"
 }
 
+// idIsSafe tells whether an id can be written as it is in attribute values
+// (references, anchors) and file names: the id of a header is not rendered.
+func idIsSafe(id string) bool {
+	return !strings.ContainsAny(id, "&<>\"'")
+}
+
 // chapName returns the name identifying current part or chapter in file
 // names: its id if custom file names are wanted and the id can be one (a path
-// separator in it would place the file elsewhere), its numbers otherwise.
+// separator in it would place the file elsewhere, a markup character would
+// break every link to it), its numbers otherwise.
 func (exp *exporter) chapName() string {
 	ctx := exp.Context()
-	if exp.customFileNames() && ctx.ID != "" && !strings.ContainsRune(ctx.ID, '/') {
+	if exp.customFileNames() && ctx.ID != "" && !strings.ContainsRune(ctx.ID, '/') && idIsSafe(ctx.ID) {
 		return ctx.ID
 	}
 	return fmt.Sprintf("%d-%02d", ctx.Toc.PartCount, ctx.Toc.ChapterCount)
@@ -367,8 +374,8 @@ func (exp *exporter) xhtmlFileOutputChange(title string) {
 	if !ok {
 		fprefix = "body"
 	}
-	if exp.customFileNames() && strings.ContainsRune(ctx.ID, '/') {
-		ctx.Error("id contains a path separator and cannot be used as file name:", ctx.ID)
+	if exp.customFileNames() && (strings.ContainsRune(ctx.ID, '/') || !idIsSafe(ctx.ID)) {
+		ctx.Error("id contains a path separator or a markup character and cannot be used as file name:", ctx.ID)
 	}
 	chapname := exp.chapName()
 	var outFile string
